@@ -446,6 +446,14 @@ void eop(string *a) {
       }
     }
     break;
+  case "snoop":   // snoop <ob|0>: this user starts (or with 0 stops) snooping
+    {
+      mixed e2; object who;
+      who = a[1] == "0" ? 0 : ob_of(a[1]);
+      if (who) e2 = catch(r = snoop(this_object(), who)); else e2 = catch(r = snoop(this_object()));
+      rec("SNOOPSET " + me() + " " + a[1] + " " + (e2 ? "err" : (r ? "1" : "0")));
+    }
+    break;
   case "parse":   // parse: parse_command() over this object's inventory (each object's id-list apply runs its "pid" hook)
     {
       mixed r1, r2; int ok;
@@ -664,7 +672,7 @@ void do_op(string op) {
   case "filter": case "map": case "sort":
     eop(a);
     break;
-  case "exec": case "parse":
+  case "exec": case "parse": case "snoop":
     eop(a);
     break;
   case "spread2": // spread2 <script>: f(args..., g(script)) - the script runs between the expansion and the call
